@@ -22,18 +22,19 @@ SHRINK_LISTS = ("ops",)
 WATCH_FILES = ("ak/color.py", "ak/ppobj.py", "ak/hdoc.py", "ak/ghist.py")
 # id_reused / id_calls are reported but not required: since the fix 902f1ff no code under this
 # property calls id() any more (the seam stays installed so that a re-introduction is caught)
-REQUIRED_PROBES = ("renders_checked", "tasks_completed", "gc_runs", "conf_dropped", "ref_requests",
+REQUIRED_PROBES = ("tbl_rendered_then_changed", "renders_checked", "tasks_completed", "gc_runs", "conf_dropped", "ref_requests",
                    "after_other_conf", "after_drop", "tasks_interleaved", "lines_vs_whole", "nocolor_checked")
 
 REAL_VS_STUB = {'real': ['ak.color, ak.ppobj, ak.hdoc, ak.ghist (report building and formatting), ak.mcaller_http (help of method callers)'], 'stub': ['id() as seen by ak.ppobj/ak.color/ak.hdoc/ak.ghist -> simulated allocator with adversarial re-use', 'cyclic GC timing -> gc.disable() + scheduled gc.collect()', 'the git repository behind ProjectRepo -> deterministic in-memory fake (sim/fakegit.py)', 'process-global state -> one fresh forked process per run, one pristine forked process per reference rendering', 'ssl.SSLContext.load_default_certs -> no-op; logging disabled']}
 
-ASSUMPTIONS = ['the pristine reference runs the same code without history: a defect identical with and without history is invisible to the no-memory oracle (it is a C09/C11/C12-type defect)', 'the harness escape scanner ESC [ digits ; : m', 'renderings overlapped by a registration into their configuration are excluded (counted as renders_indeterminate)', 'failures reproduced by the pristine process are input-dependent and not reported (counted as ref_errors_agreed)']
+ASSUMPTIONS = ['the pristine reference runs the same code without history: a defect identical with and without history is invisible to the no-memory oracle (it is a C09/C11/C12-type defect)', 'the harness escape scanner ESC [ digits ; : m', 'renderings overlapped by a registration into their configuration are excluded (counted as renders_indeterminate)', 'failures reproduced by the pristine process are input-dependent and not reported (counted as ref_errors_agreed)', 'line tasks of a table end when its format is re-assigned or columns are removed (what an in-flight rendering shows past a real format change is not stated)']
 
 RULE = ("each run = one seeded history of 15-60 ops over 2-4 colour configurations (explicit nested inits overriding "
         "component defaults, pending parents registered later, no_color variants), 2-4 printable objects (pretty-"
         "printer values, tables with shared enum field types / custom and sub palettes / break-by / limits, record "
         "formatters, git-history reports, console help incl. method callers), rendering requests consumed whole, as "
-        "plain text or line by line as interleaved tasks (step, drain, abandon), with scheduled gc.collect(), dropped "
+        "plain text or line by line as interleaved tasks (step, drain, abandon), tables re-formatted / stripped of "
+        "columns between renderings (oracle: the equal fresh table), with scheduled gc.collect(), dropped "
         "configurations and adversarial id() re-use. Non-trivial iff at least one rendering was checked after another "
         "configuration had been used on the same object or dropped, or a task was interleaved with other renderings; "
         "distinct = digest of the trace.")
@@ -125,6 +126,14 @@ def gen_table(rng, n_enums, big=False):
         fmt = ",".join(cols)
         if rng.random() < 0.3:
             fmt += f";{rng.randint(0, 3)}:{rng.randint(0, 3)}"
+        if rng.random() < 0.2 and len(recs) >= 4 and cols:
+            # break lines together with limits that really hide records: which records are visible
+            # depends on the break-by columns
+            if not any("!" in c for c in cols):
+                i = rng.randrange(len(cols))
+                head, sep, tail = cols[i].partition(":")
+                cols[i] = head + "!" + sep + tail
+            fmt = ",".join(cols) + f";{rng.randint(1, 2)}:{rng.randint(0, 2)}"
         spec["fmt"] = fmt
     elif rng.random() < 0.2:
         spec["fmt"] = f";{rng.randint(0, 2)}:{rng.randint(0, 2)}"
@@ -162,6 +171,97 @@ def gen_table(rng, n_enums, big=False):
         if "status" in (f0, f1, f2):
             spec["types"] = {"status": rng.randrange(n_enums)} if n_enums else {}
     return spec
+
+
+def _colname(c):
+    return c.strip().split(":")[0].split("/")[0].rstrip("!").strip()
+
+
+def apply_tbl_op(spec, op):
+    """the description of a FRESH table equal to what a table described by spec becomes after a format
+    assignment / column removal; None when the operation does not apply.  Shared by generator and world."""
+    if spec.get("kind") != "table" or spec.get("enhanced"):
+        return None
+    ocols, _, olim = (spec.get("fmt") or "").partition(";")
+    eff = dict(spec)
+    if op["op"] == "tbl_refmt":
+        cols = op.get("cols")
+        lim = op.get("lim")
+        if not cols and not lim:
+            return None
+        ncols = ",".join(cols) if cols else ocols
+        if cols:
+            eff.pop("skip_columns", None)
+        if lim:
+            nl = f"{lim[0]}:{lim[1]}"
+            eff.pop("limits", None)
+        else:
+            nl = olim
+        eff["fmt"] = ncols + (";" + nl if nl else "")
+        return eff
+    if op["op"] == "tbl_remove":
+        names = list(op["names"])
+        if ocols.strip():
+            cur = [c for c in ocols.split(",") if c.strip()]
+            left = [c for c in cur if _colname(c) not in names]
+            if not left or len(left) == len(cur):
+                return None
+            eff["fmt"] = ",".join(left) + (";" + olim if olim else "")
+            return eff
+        skip = list(spec.get("skip_columns") or [])
+        shown = [f for f in spec["fields"] if f not in skip]
+        gone = [f for f in names if f in shown]
+        if not gone or len(gone) == len(shown):
+            return None
+        eff["skip_columns"] = skip + gone
+        return eff
+    return None
+
+
+def tbl_fmt_string(op):
+    s = ",".join(op.get("cols") or [])
+    if op.get("lim"):
+        s += f";{op['lim'][0]}:{op['lim'][1]}"
+    return s
+
+
+def gen_tbl_op(rng, spec):
+    """a format assignment / column removal derived from the table's current description"""
+    fields = spec["fields"]
+    ocols = (spec.get("fmt") or "").partition(";")[0]
+    cur = [c.strip() for c in ocols.split(",") if c.strip()] or [f for f in fields if f not in (spec.get("skip_columns") or [])]
+    if rng.random() < 0.25:
+        return {"op": "tbl_remove", "names": rng.sample(fields, rng.randint(1, 2)), "via_fmt_obj": rng.random() < 0.3}
+    how = rng.choice(["drop", "drop", "reorder", "toggle", "fresh", "same", "limits"])
+    cols = list(cur)
+    if how == "drop" and len(cols) > 1:
+        brk = [i for i, c in enumerate(cols) if "!" in c]
+        del cols[rng.choice(brk) if brk and rng.random() < 0.7 else rng.randrange(len(cols))]
+    elif how == "reorder":
+        rng.shuffle(cols)
+    elif how == "toggle":
+        i = rng.randrange(len(cols))
+        c = cols[i]
+        if "!" in c:
+            cols[i] = c.replace("!", "")
+        else:
+            head, sep, tail = c.partition(":")
+            cols[i] = head + "!" + sep + tail
+    elif how == "fresh":
+        cols = []
+        for f in rng.sample(fields, rng.randint(1, len(fields))):
+            c = f + ("!" if rng.random() < 0.25 else "")
+            r = rng.random()
+            if r < 0.3:
+                c += f":{rng.randint(0, 12)}"
+            elif r < 0.6:
+                a = rng.randint(0, 6)
+                c += f":{a}-{a + rng.randint(0, 12)}"
+            cols.append(c)
+    elif how == "limits":
+        cols = None
+    lim = [rng.randint(0, 3), rng.randint(0, 3)] if (how == "limits" or rng.random() < 0.25) else None
+    return {"op": "tbl_refmt", "cols": cols, "lim": lim, "via_prop": rng.random() < 0.5}
 
 
 PP_VALUES = [
@@ -250,6 +350,7 @@ def generate(rng, tier):
     live_conf = set()
     live_obj = {}
     live_task = {}
+    cur = {}          # obj slot -> description of the object as re-formatted so far
     n_ops = rng.randint(15, 60 if tier != "quick" else 45)
 
     def render_args(o):
@@ -272,8 +373,7 @@ def generate(rng, tier):
             j = rng.randrange(len(objs))
             ops.append({"op": "obj_new", "slot": o, "spec": j})
             live_obj[o] = j
-            for t in [t for t, (oo) in live_task.items() if oo == o]:
-                pass
+            cur[o] = objs[j]
         elif r < 0.22:
             s = rng.choice(sorted(live_conf))
             ops.append({"op": "conf_drop", "slot": s})
@@ -298,6 +398,17 @@ def generate(rng, tier):
                         "no_color": rng.random() < 0.3, "synced": rng.random() < 0.15})
         elif r < 0.46:
             ops.append({"op": "gc"})
+        elif r < 0.51 and any(cur[o]["kind"] == "table" for o in live_obj):
+            # the life of a table: its format is re-assigned / columns are removed between renderings
+            o = rng.choice(sorted(o for o in live_obj if cur[o]["kind"] == "table"))
+            a = gen_tbl_op(rng, cur[o])
+            a["obj"] = o
+            new = apply_tbl_op(cur[o], a)
+            if new is not None:
+                cur[o] = new
+                for t in [t for t, oo in live_task.items() if oo == o]:
+                    del live_task[t]
+            ops.append(a)
         elif r < 0.70:
             o = rng.choice(sorted(live_obj))
             a = render_args(o)
@@ -432,6 +543,7 @@ class World:
         self.trace = trace
         self.log = log
         self.inits = trace["inits"]
+        self.specs = list(trace["objs"])    # grows: a re-formatted table gets the description of its fresh equal
         self.enums = {}
         self.confs = {}        # slot -> ConfModel
         self.objs = {}         # slot -> (Built, spec index)
@@ -444,7 +556,7 @@ class World:
                       "task_steps": 0, "tasks_interleaved": 0, "gc_runs": 0, "conf_new": 0, "conf_dropped": 0,
                       "conf_global": 0, "conf_add": 0, "touch": 0, "obj_new": 0, "after_other_conf": 0,
                       "after_drop": 0, "nocolor_checked": 0, "lines_vs_whole": 0, "plain_checked": 0,
-                      "ref_errors_agreed": 0}
+                      "ref_errors_agreed": 0, "tbl_refmt": 0, "tbl_remove": 0, "tbl_rendered_then_changed": 0}
         for k in ("table", "pp", "recfmt", "ghist", "hdoc", "ppwrap", "userbox", "usernote"):
             self.stats["kind." + k] = 0
 
@@ -486,7 +598,7 @@ class World:
 
     # -- reference
     def reference(self, spec_idx, cm_spec, mode, no_color=None, how_ref="str"):
-        spec = self.trace["objs"][spec_idx]
+        spec = self.specs[spec_idx]
         m = {"via": mode["via"], "no_color": mode["no_color"] if no_color is None else no_color,
              "palette": mode.get("palette"), "rec": mode.get("rec", 0), "how_ref": how_ref}
         enums = {}
@@ -534,7 +646,7 @@ class World:
         if t.cm.version != t.version:
             self.stats["renders_indeterminate"] += 1
             return
-        kind = self.trace["objs"][t.spec_idx]["kind"]
+        kind = self.specs[t.spec_idx]["kind"]
         nc_conf = t.conf_snapshot["no_color"]
         want_plain = how == "plain" or t.mode["no_color"] or nc_conf
         # O1: no escape character in no_color output
@@ -670,12 +782,43 @@ def _do_op(w, trace, op, n, k, log, color):
         w.objs[op["slot"]] = (built, j)
         w.obj_confs_used.pop(op["slot"], None)
         w.stats["obj_new"] += 1
+    elif k in ("tbl_refmt", "tbl_remove"):
+        ent = w.objs.get(op["obj"])
+        if ent is None:
+            return
+        built, idx = ent
+        new = apply_tbl_op(w.specs[idx], op)
+        if new is None:
+            return
+        # renderings of this table still in flight end here (what they show past a format change is not stated)
+        for slot in [s for s, t in w.tasks.items() if getattr(t, "obj_slot", None) == op["obj"]]:
+            t = w.tasks.pop(slot)
+            if t.it is not None and hasattr(t.it, "close"):
+                w.sut("close(iterator)", t.it.close)
+            w.stats["tasks_abandoned"] += 1
+        ctx = (len(w.specs), {"init": {}, "no_color": False, "batches": []},
+               {"via": "explicit", "no_color": True, "palette": None})
+        w.specs.append(new)
+        if k == "tbl_refmt":
+            fs = tbl_fmt_string(op)
+            if op.get("via_prop"):
+                w.guarded("table.fmt = ...", ctx, setattr, built.obj, "fmt", fs)
+            else:
+                w.guarded("table.set_fmt", ctx, built.obj.set_fmt, fs)
+        elif op.get("via_fmt_obj"):
+            w.guarded("table.fmt.remove_columns", ctx, built.obj.fmt.remove_columns, list(op["names"]))
+        else:
+            w.guarded("table.remove_columns", ctx, built.obj.remove_columns, list(op["names"]))
+        w.objs[op["obj"]] = (built, len(w.specs) - 1)
+        w.stats[k] += 1
+        if w.obj_confs_used.get(op["obj"]):
+            w.stats["tbl_rendered_then_changed"] += 1
     elif k == "render":
         t = w.start(op)
         if t is None:
             return
         how = op.get("how", "str")
-        kind = trace["objs"][t.spec_idx]["kind"]
+        kind = w.specs[t.spec_idx]["kind"]
         if how == "lines" and kind in ("recfmt", "ppwrap"):
             how = "str"       # a formatted record / a wrapper has no line structure
         if how == "dunder" and (kind in ("recfmt", "pp", "hdoc") or t.mode["via"] != "global"
@@ -746,7 +889,7 @@ def _do_op(w, trace, op, n, k, log, color):
         log.add("whole", n, hashlib.blake2b(text.encode(), digest_size=6).hexdigest())
     elif k == "task_poke":
         t = w.tasks.get(op["task"])
-        if t is None or t.r.res is None or w.trace["objs"][t.spec_idx]["kind"] not in ("pp", "table", "ghist"):
+        if t is None or t.r.res is None or w.specs[t.spec_idx]["kind"] not in ("pp", "table", "ghist"):
             return
         w.guarded("poke-" + op["what"], t.ctx(), rw.ro.poke, t.r, op["what"])
         w.stats["pokes"] = w.stats.get("pokes", 0) + 1
@@ -795,7 +938,7 @@ def _next(it):
 
 def _finish_task(w, t, slot, log, n):
     w.tasks.pop(slot, None)
-    kind = w.trace["objs"][t.spec_idx]["kind"]
+    kind = w.specs[t.spec_idx]["kind"]
     text = "\n".join(t.lines)
     if t.interleaved:
         w.stats["tasks_interleaved"] += 1
